@@ -148,6 +148,14 @@ class NestedTransdimensional(BaseProposal):
                               {p: givenx[p] for p in prop.parameters})
         return lp
 
+    def _reset_adaptation(self):
+        """Resets the adaptation of the model proposal and of the constituent
+        proposals; the ones without adaptation are left alone.
+        """
+        for prop in [self.model_proposal] + list(self.proposals):
+            if hasattr(prop, '_reset_adaptation'):
+                prop._reset_adaptation()
+
     def _update(self, chain):
         # check that proposal has been stepped in at least twice in a row
         if chain.iteration > 1:
